@@ -26,7 +26,8 @@ RULE = (
     "cases are trees of nodes (offset, explicit size or derived, own bytes or none, pattern none/zeros/ones/inc/number, alignment, "
     "0..4 children attached with add_image or append_image, depth-first or breadth-first, size given to the constructor or set later); "
     "offsets are drawn relative to the previous sibling's end (gap -3..+3 or larger) or absolute; the formats part uses trees that are "
-    "valid by construction at base addresses 0 .. 2^32-len. non-trivial = depth >= 2 or an alignment > 1 or a gap (a byte showing fill "
+    "valid by construction at base addresses 0 .. 2^32-len; the merge part writes 1..5 regions (pattern blocks, BIN files, 1..3-segment HEX/S19 "
+    "files made by an independent writer) with explicit or omitted offsets into a configuration for load_from_config. non-trivial = depth >= 2 or an alignment > 1 or a gap (a byte showing fill "
     "or end padding); distinct by digest of the tree shape (all fields except byte contents)"
 )
 ASSUMPTIONS = [
@@ -37,7 +38,9 @@ ASSUMPTIONS = [
     "and after loading they hold the pattern given to the loader",
     "a BIN file whose content is itself a valid first S-record / Intel-HEX record, or text with an '@' address marker, is excluded from the BIN "
     "load check (format sniffing is documented)",
-    "Intel-HEX / S-record readers are written from the format definitions and self-tested on the published examples and on a HEX/BIN pair made by another tool",
+    "merge configurations: offsets are omitted only when no overall size is given, sparse input files start at address 0, and the bytes between "
+    "the segments of one sparse input file are not compared (nothing states which pattern fills them)",
+    "Intel-HEX / S-record readers and writers are written from the format definitions and self-tested on the published examples and on a HEX/BIN pair made by another tool",
 ]
 FLOORS = {
     "valid": 0.25, "invalid:overlap": 0.05, "invalid:sticks_out": 0.05, "depth>=2": 0.30, "depth>=3": 0.10, "touching": 0.08,
